@@ -59,6 +59,21 @@ def unroll_cases(ctx):
                 pass
         two = rng.sample(sorted(labels), 2)
         specs.append({two[0]: 2, two[1]: 2})
+        # a hand-written partition with a cut INSIDE a sector; sectors named by tuples or (single-component symmetries) by plain ints
+        if sym != 'dense':
+            lab = rng.choice(sorted(labels))
+            L_ = labels[lab]
+            big = [i for i, d in enumerate(L_.D) if d >= 2]
+            if big:
+                i0 = rng.choice(big)
+                cut = rng.randint(1, L_.D[i0] - 1)
+                plain = len(L_.t[0]) == 1 and rng.random() < 0.6
+                key = (lambda t: t[0]) if plain else (lambda t: t)
+                p1 = yastn.SlicedLeg(t=[key(L_.t[i0])], D=[cut], slices={key(L_.t[i0]): slice(0, cut)})
+                p2 = yastn.SlicedLeg(t=[key(t) for t in L_.t], D=[(d - cut if i == i0 else d) for i, d in enumerate(L_.D)],
+                                     slices={key(t): (slice(cut, L_.D[i0]) if i == i0 else slice(None)) for i, t in enumerate(L_.t)})
+                specs.append({lab: [p1, p2]})
+                ctx.count('unroll:hand-written:' + ('int-keys' if plain else 'tuple-keys'))
         robs = tgen.obs(ref)
         for spec in specs:
             spec_before = repr(spec)
